@@ -37,6 +37,11 @@ def run(ctx):
     r2(ctx, facts)
     r3(ctx, facts)
     r4(ctx, facts)
+    r7_time_utilities(ctx, facts)
+    # the formatter (time zone, timestamp pattern) a logger's lines are rendered with is its own: shared with C12.R7
+    from rules import c12
+    from rules.c09 import Renamed
+    c12.r7_options_equality(Renamed(ctx, "C12.R7", "C13.R8"), facts)
 
 
 def enum_const(n, prefix):
@@ -671,3 +676,71 @@ def r4(ctx, facts):
            "the cache is rebuilt for the timestamp passed in (cached timestamp := it: %s), broken down with the conversion of the configured "
            "zone (%s), the cached time of day is tm_hour*3600 + tm_min*60 + tm_sec (%s) and every part is rendered by strftime for the "
            "same instant and zone (%s)" % (ok1, conv, ok3, ok4), fn=pf)
+
+
+def r7_time_utilities(ctx, facts):
+    """R7: the three conversions every rendered field rests on are libc's: gmtime_rs / localtime_rs / timegm hand their own arguments, in
+    order, to gmtime_r / localtime_r / ::timegm — the one that matches their name — and return its result (or the caller's buffer);
+    a failure result ends in a throw. A wrapper that no longer calls libc at all computes the calendar itself: that arithmetic is a
+    runtime-value question this analysis does not decide (analysis broken, not a pass)."""
+    want = {"gmtime_rs": ("gmtime_r", "localtime_r", 2), "localtime_rs": ("localtime_r", "gmtime_r", 2), "timegm": ("timegm", "mktime", 1)}
+    for name, (libc, wrong, nargs) in want.items():
+        f = facts.need("quill::detail::" + name, "A")[0]
+        params = [p["did"] for p in f.rec["params"]]
+        right = [c for c in f.calls(r"^(::)?%s$" % libc)]
+        bad = [c for c in f.calls(r"^(::)?(%s|mktime|localtime|gmtime)$" % wrong) if c not in right]
+        if not right and not bad:
+            raise AnalysisBroken("%s no longer calls libc's %s: an in-house calendar computation is not decided by this analysis" % (name, libc))
+        ok_args = len(right) == 1 and len(right[0]["args"]) == nargs and [var_ref(strip(a, casts=True)) for a in right[0]["args"]] == params[:nargs]
+        ctx.ob("C13.R7a", "%s:delegates-to-%s" % (name, libc), ok_args and not bad,
+               "%s hands its own arguments, in order, to libc's %s and to no other conversion (%d call(s) to %s, %d to another conversion)"
+               % (name, libc, len(right), libc, len(bad)), fn=f)
+        if not right:
+            continue
+        inits = f.var_inits()
+        resv = [v for v, i in inits.items() if any(x is right[0] for x in walk(i)) and strip(i, casts=True) is right[0]]
+        rets = [f.g.node_ast(r) for r in f.g.return_nodes()]
+
+        def is_result(e):
+            e = strip(e, casts=True)
+            if e is right[0]:
+                return True
+            v = var_ref(e)
+            if v is None:
+                return False
+            if v in resv and not f.assignments_to_var(v):
+                return True
+            return nargs == 2 and v == params[1]
+        ctx.ob("C13.R7b", "%s:returns-libc-result" % name, bool(rets) and all(is_result(r.get("val")) for r in rets),
+               "every return hands back %s's own result%s, unmodified" % (libc, " or the caller's buffer it filled" if nargs == 2 else ""), fn=f)
+        # the failure result ends in a throw
+        g = f.g
+        thr = [p for n in f.walk() if n["k"] == "CXXThrowExpr" for p in g.positions(n)]
+        fail_edges = []
+        for bid, b in g.blocks.items():
+            c = g.term_cond(bid)
+            if c is None:
+                continue
+            core, neg = core_and_neg(c)
+            core = strip(core, casts=True)
+            if is_call(core, r"__builtin_expect$") and core.get("args"):
+                inner = strip(core["args"][0], casts=True)
+                core2, neg2 = core_and_neg(inner)
+                core, neg = strip(core2, casts=True), neg != neg2
+            lab = None
+            if var_ref(core) in resv:            # if (!res)
+                lab = "F"
+            else:
+                nc = norm_cmp(core)
+                if nc and nc[0] in ("==", "!="):
+                    l, r = strip(core["lhs"], casts=True), strip(core["rhs"], casts=True)
+                    for a, b2 in ((l, r), (r, l)):
+                        if var_ref(a) in resv and (const_val(b2) in (-1, 0) or is_null(b2)):
+                            lab = "T" if nc[0] == "==" else "F"
+            if lab is not None:
+                fail_edges.append((bid, other(lab) if neg else lab))
+        ok_thr = bool(thr) and bool(fail_edges) and all(
+            not g.exists_path([y for (y, l2) in g.succ.get(tnode(g, b), ()) if l2 == lab], [n for n in g.return_nodes()])
+            for (b, lab) in fail_edges)
+        ctx.ob("C13.R7c", "%s:failure-throws" % name, ok_thr,
+               "libc's failure result (%s) ends in a throw on every path, never in a returned value" % ("null" if nargs == 2 else "-1"), fn=f)
